@@ -1967,6 +1967,12 @@ class AstEval:
     async def ast_formattedvalue(self, arg):
         """Evaluate formatted value."""
         val = await self.aeval(arg.value)
+        if arg.conversion == ord("r"):
+            val = repr(val)
+        elif arg.conversion == ord("s"):
+            val = str(val)
+        elif arg.conversion == ord("a"):
+            val = ascii(val)
         if arg.format_spec is not None:
             fmt = await self.aeval(arg.format_spec)
             return f"{val:{fmt}}"
